@@ -108,7 +108,7 @@ def run(P, rep, tier):
         owned = {}
         for s_ in secs:
             for k, v in s_.attrs.items():
-                if isinstance(v, (ADict, AList)) and k in ('options', '_content'):
+                if isinstance(v, (ADict, AList)) and k in ('options', D.content_slot()):
                     if id(v) in owned:
                         dup.append((k, s_.cls.name, owned[id(v)]))
                     owned[id(v)] = s_.cls.name
@@ -296,7 +296,7 @@ def run(P, rep, tier):
         d = t['DiffX']
         gs = d.cls.find_method('generate_stats')
         for o in (t['DiffXFileSection'],):
-            o.attrs['diff_section'].attrs['_content'] = Unk('diff', kinds=['bytes'], taint=['ARG'])
+            o.attrs['diff_section'].attrs[D.content_slot()] = Unk('diff', kinds=['bytes'], taint=['ARG'])
         I.frames = []
         I.call_function(gs, [d], {}, None, self_cls=d.cls)
         return d
